@@ -784,6 +784,15 @@ def copyAndDrop (dflt : α) (v : VRing α) : VRing α :=
 /-- move construction from `v` (the moved-from object owns nothing and destroys nothing) -/
 def moveAndDrop (v : VRing α) : VRing α := { v with t := (TRing.move v.t).1 }
 
+/-- copy ASSIGNMENT of `v` to a freshly constructed `ring<T>(m)`, then `v` itself is
+destroyed: `unbounded_array::operator=` destroys the `m + 1` elements of the target,
+allocates `size` elements and copy-constructs each from the source slot -/
+def assignAndDrop (dflt : α) (v : VRing α) (m : Nat) : VRing α :=
+  let w := v.invalidate
+  { w with t := TRing.assign (TRing.mk' dflt m) v.t, live := List.replicate v.t.buf.length true,
+           ctor := w.ctor + (m + 1) + v.t.buf.length, dtor := w.dtor + (m + 1),
+           deadRead := v.deadRead + LRing.deadCount v.live }
+
 end VRing
 
 /-- scripts over one `igris::ring<T>` object and its successors by copy / move -/
@@ -795,6 +804,7 @@ inductive VOp (α : Type) where
   | resize (sz : Nat)
   | copy
   | move
+  | assign (m : Nat)
 
 def VRing.step {α : Type} (dflt : α) (v : VRing α) : VOp α → Option (VRing α)
   | .push x => v.push x
@@ -804,6 +814,7 @@ def VRing.step {α : Type} (dflt : α) (v : VRing α) : VOp α → Option (VRing
   | .resize sz => some (v.resize dflt sz)
   | .copy => some (v.copyAndDrop dflt)
   | .move => some v.moveAndDrop
+  | .assign m => some (v.assignAndDrop dflt m)
 
 def VRing.run {α : Type} (dflt : α) : VRing α → List (VOp α) → Option (VRing α)
   | v, [] => some v
@@ -841,5 +852,11 @@ def cyclicCtorC (size : BitVec 64) : RingCounter × Nat :=
 def fixupLoopT (size : U32) : Nat → U32 → Option U32
   | 0, x => if x ≥ size then none else some x
   | fuel + 1, x => if x ≥ size then fixupLoopT size fuel (x - size) else some x
+
+/-- `size_t write(const T *buf, size_t sz) { return ring_write(&r, buffer.data(), buf, sz); }`
+(and `read` alike): `sz` is converted to the `unsigned int size` parameter of
+`ring_write` — only `sz mod 2^32` elements are offered to the ring. -/
+def TRing.writeC {α : Type} (t : TRing α) (d : List α) : Option (TRing α × Nat) :=
+  (ringWrite t.r t.buf (d.take (d.length % 2 ^ 32))).map fun (r', b', k) => (⟨r', b'⟩, k)
 
 end Igris.C03
